@@ -23,7 +23,7 @@ class AccessMixin:
         for kind, s, v in self.eval(e.value, st, module):
             if kind != 'ok':
                 outs.append((kind, s, v)); continue
-            outs += self.getattr_(s, v, e.attr, module)
+            outs += self.getattr_(s, v, self.mangle(e.attr, module), module)
         return outs
 
     def mangle(self, attr, module):
